@@ -112,6 +112,8 @@ def _o(x):
 def _nb(nb):
     if isinstance(nb, tuple) and len(nb) == 2 and nb[0] == 'one':
         return [1, nb[1]]          # a single node passed as a scalar: the model sees the one-element bunch
+    if isinstance(nb, tuple) and len(nb) == 2 and nb[0] == 'iter':
+        return [1] + list(nb[1])   # a one-shot iterator over the nodes: the model sees the bunch
     return [0] if nb is None else [1] + list(nb)
 
 
@@ -128,7 +130,7 @@ def encode_op(op):
         return [2, r, n, a]
     if k == 'bulk':
         _, r, kind, t, e, l = op
-        kk = {'from': 0, 'path': 1, 'star': 2, 'cycle': 3}[kind]
+        kk = {'from': 0, 'path': 1, 'star': 2, 'cycle': 3, 'fpath': 5, 'fstar': 6, 'fcycle': 7}[kind]
         flat = [x for p in l for x in p] if kind == 'from' else list(l)
         return [3, r, kk, *_o(t), *_o(e), *flat]
     if k == 'clear':
@@ -216,6 +218,8 @@ def encode_op(op):
         return [63] + flat
     if k == 'compact':
         return [64] + list(op[2])
+    if k == 'bigio':
+        return [67]
     if k == 'occname':
         _, u, v, t = op
         return [66, t, len(u)] + [ord(c) for c in u] + [ord(c) for c in v]
@@ -410,6 +414,8 @@ def decode_res(op, ints, directed_of):
         return dict(edges=sorted(((a, b), (c, d)) for a, b, c, d in edges), sources=sorted(sources), targets=sorted(targets))
     if k == 'trpsample':
         return 'subset-ok'
+    if k == 'bigio':
+        return 'OK'
     if k in ('trp', 'alltrp'):
         if ints[0] == -1:
             return 'ValueError'
@@ -601,12 +607,24 @@ class Impl:
             return None
         if k == 'nxcall':
             return nx_call(self, op)
+        if k == 'bulk3':
+            # add_interactions_from with the documented 3-tuples (u, v, d), d carrying a 't' entry as the tuples that
+            # interactions() yields do
+            _, r, t, e, l = op
+            try:
+                self.g(r).add_interactions_from([(I.to(a), I.to(b), {'t': [[x, y]]}) for a, b, x, y in l], t=t, e=e)
+                return 'Done'
+            except Exception as x:
+                return _exc_name(x)
         if k == 'bulk':
             _, r, kind, t, e, l = op
             G = self.g(r)
             try:
                 if kind == 'from':
                     G.add_interactions_from([(I.to(a), I.to(b)) for a, b in l], t=t, e=e)
+                elif kind in ('fpath', 'fstar', 'fcycle'):
+                    # the module-level helpers forward extra keyword arguments (the vanishing time e) to add_interactions_from
+                    getattr(D, 'add_' + kind[1:])(G, [I.to(x) for x in l], t, **({} if e is None else {'e': e}))
                 elif kind in ('path', 'star', 'cycle') and (F or not hasattr(G, 'add_' + kind)):
                     # DynDiGraph only defines add_path as a method; the module-level helpers serve both classes
                     getattr(D, 'add_' + kind)(G, [I.to(x) for x in l], t)
@@ -638,6 +656,8 @@ class Impl:
             return {kk: sorted(set(tuple(tuple(h) for h in p) for p in v)) for kk, v in res.items()}
         if k == 'compact':
             return sorted(D.compact_timeslot(list(op[2])).items())
+        if k == 'bigio':
+            return big_span_check(D, *op[1:]) if str(op[1]).startswith('span-') else big_io_check(D, *op[1:])
         if k == 'occname':
             # the library's own naming of DAG occurrences and its decoding, on a one-interaction graph
             from dynetx.algorithms import paths as al
@@ -786,7 +806,10 @@ class Impl:
                 if isinstance(res, dict):
                     return sorted((I.back(n), dd) for n, dd in res.items())
                 return [(nb[1], res)]
-            nbx = None if nb is None else [I.to(x) for x in nb]
+            if isinstance(nb, tuple) and len(nb) == 2 and nb[0] == 'iter':
+                nbx = iter([I.to(x) for x in nb[1]])          # "the container will be iterated through once"
+            else:
+                nbx = None if nb is None else [I.to(x) for x in nb]
             if F == 2:
                 res = dict(getattr(G, kind + '_iter')(nbx, t))
             elif F and kind == 'degree':
@@ -1123,6 +1146,183 @@ def _io_methods():
     Impl.step_io_rt = step_io_rt
     Impl.step_io_write = step_io_write
     Impl.step_io_read = step_io_read
+
+
+def _runs_union(runs):
+    out = []
+    for a, b in sorted(runs):
+        if out and a <= out[-1][1] + 1:
+            out[-1][1] = max(out[-1][1], b)
+        else:
+            out.append([a, b])
+    return [tuple(x) for x in out]
+
+
+def _runs_inter(r1, r2):
+    out = []
+    for a, b in r1:
+        for c, d in r2:
+            lo, hi = max(a, c), min(b, d)
+            if lo <= hi:
+                out.append((lo, hi))
+    return _runs_union(out)
+
+
+def big_span_check(D, kind, directed, L, T0):
+    """runs of L (>= 10^5) instants starting at T0 (epoch-size): presence, timelines, slices and conversions checked by
+    interval arithmetic at and around every run boundary (implementation side only: the per-instant snapshot table
+    of the list-based model cannot hold such runs).  Returns 'OK' or what went wrong."""
+    def tl(H, u, v):
+        for a, b, d in (H.out_interactions() if H.is_directed() else H.interactions()):
+            if (a, b) == (u, v) or (not H.is_directed() and (b, a) == (u, v)):
+                return [tuple(x) for x in d['t']]
+        return []
+
+    def check_presence(H, u, v, runs, what):
+        if tl(H, u, v) != runs:
+            return 'FAIL: %s: timeline of %r-%r is %r, expected %r' % (what, u, v, tl(H, u, v)[:4], runs[:4])
+        pts = sorted({x + dx for a, b in runs for x in (a, b) for dx in (-1, 0, 1)})
+        for t in pts:
+            exp = any(a <= t <= b for a, b in runs)
+            if H.has_interaction(u, v, t) != exp:
+                return 'FAIL: %s: has_interaction(%r, %r, %d) is %r' % (what, u, v, t, not exp)
+        return None
+    try:
+        cls = D.DynDiGraph if directed else D.DynGraph
+        if kind == 'span-core':
+            G = cls()
+            G.add_interaction(1, 2, t=T0, e=T0 + L + 1)                   # [T0, T0+L]
+            G.add_interaction(1, 2, t=T0 + L + 1, e=T0 + L + 4)           # adjacent: merges
+            G.add_interaction(1, 2, t=T0 + L + 10, e=T0 + 2 * L)          # gap: second run
+            G.add_interaction(1, 2, t=T0 + L + 10)                        # contained
+            r = check_presence(G, 1, 2, [(T0, T0 + L + 3), (T0 + L + 10, T0 + 2 * L - 1)], 'long runs')
+            if r:
+                return r
+            ids = G.temporal_snapshots_ids()
+            if len(ids) != (L + 4) + (L - 10) or ids[0] != T0 or ids[-1] != T0 + 2 * L - 1:
+                return 'FAIL: long runs: %d snapshot ids from %r to %r' % (len(ids), ids[:1], ids[-1:])
+            return 'OK'
+        if kind == 'span-slice':
+            G = cls()
+            G.add_interaction(1, 2, t=T0, e=T0 + L + 1)
+            G.add_interaction(2, 3, t=T0 + L, e=T0 + L + 6)               # starts on the last instant of the first
+            for (a, b) in [(T0 + L, T0 + L + 2), (T0 - 3, T0), (T0 + 5, T0 + L - 5), (T0 + L, T0 + L), (T0 + L + 1, T0 + L + 9)]:
+                H = G.time_slice(a, b)
+                for (u, v, runs) in [(1, 2, [(T0, T0 + L)]), (2, 3, [(T0 + L, T0 + L + 5)])]:
+                    r = check_presence(H, u, v, _runs_inter(runs, [(a, b)]), 'time_slice(%d, %d)' % (a - T0, b - T0))
+                    if r:
+                        return r
+            return 'OK'
+        if kind == 'span-conv':
+            if directed:
+                for k in (0, 1, 2, 7):                                    # instants shared by the two directions
+                    G = D.DynDiGraph()
+                    G.add_interaction(1, 2, t=T0, e=T0 + L + 1)                       # 1->2 on [T0, T0+L]
+                    G.add_interaction(2, 1, t=T0 + L - k + 1, e=T0 + L + 9)           # 2->1 from T0+L-k+1
+                    r1, r2 = [(T0, T0 + L)], [(T0 + L - k + 1, T0 + L + 8)]
+                    H = G.to_undirected(reciprocal=True)
+                    r = check_presence(H, 1, 2, _runs_inter(r1, r2), 'to_undirected(reciprocal=True), %d shared instants' % k)
+                    if r:
+                        return r
+                    H = G.to_undirected()
+                    r = check_presence(H, 1, 2, _runs_union(r1 + r2), 'to_undirected(), %d shared instants' % k)
+                    if r:
+                        return r
+            else:
+                G = D.DynGraph()
+                G.add_interaction(1, 2, t=T0, e=T0 + L + 1)
+                G.add_interaction(1, 2, t=T0 + L + 5, e=T0 + L + 7)
+                H = G.to_directed()
+                have = sorted(tl(H, 1, 2) or tl(H, 2, 1))
+                if have != [(T0, T0 + L), (T0 + L + 5, T0 + L + 6)]:
+                    return 'FAIL: to_directed(): timeline %r' % (have[:4],)
+            return 'OK'
+        return 'FAIL: unknown kind %r' % (kind,)
+    except Exception as x:
+        return 'FAIL: ' + _exc_name(x) + ': ' + str(x)[:80]
+
+
+def big_io_check(D, kind, directed, n, keys, target):
+    """multi-megabyte files: what is written is one row per interaction and instant / per event, and reading it back
+    (optionally with keys=True) gives the same timelines and the same stream.  Returns 'OK' or what went wrong."""
+    import io, os, gzip, bz2
+    G = (D.DynDiGraph if directed else D.DynGraph)()
+    t0 = 7
+    if kind == 'snap':
+        half = n // 2
+        G.add_interaction(1, 2, t=t0, e=t0 + half)
+        if directed:
+            G.add_interaction(2, 1, t=t0 + 3, e=t0 + 3 + (n - half))
+        else:
+            G.add_interaction(2, 3, t=t0 + 3, e=t0 + 3 + (n - half))
+        writer, reader = D.write_snapshots, D.read_snapshots
+    else:
+        for i in range(n // 2):
+            t = t0 + i % 50
+            G.add_interaction(2 * i, 2 * i + 1, t=t, e=t + 1 + i % 3)
+        writer, reader = D.write_interactions, D.read_interactions
+    tl = lambda H: sorted((u, v, tuple(map(tuple, d['t']))) for u, v, d in (H.out_interactions() if directed else H.interactions()))
+    norm = lambda u, v: (u, v) if directed else (min(u, v), max(u, v))
+    if target == 'fileobj':
+        buf = io.BytesIO()
+        writer(G, buf)
+        data = buf.getvalue()
+        path = None
+    else:
+        path = os.path.join(VERIF, '.work', str(os.getpid()), 'big' + {'plain': '.txt', 'gz': '.gz', 'bz2': '.bz2'}[target])
+        os.makedirs(os.path.dirname(path), exist_ok=True)
+        writer(G, path)
+        raw = open(path, 'rb').read()
+        data = gzip.decompress(raw) if target == 'gz' else bz2.decompress(raw) if target == 'bz2' else raw
+    try:
+        text = data.decode('utf-8')
+        if not text.endswith('\n'):
+            return 'FAIL: no final newline'
+        lines = text.split('\n')[:-1]
+        if kind == 'snap':
+            exp = sorted((norm(u, v), t) for u, v, d in (G.out_interactions() if directed else G.interactions()) for a, b in d['t'] for t in range(a, b + 1))
+            got = []
+            for ln in lines:
+                f = ln.split(' ')
+                if len(f) != 3:
+                    return 'FAIL: row %r' % ln
+                got.append((norm(int(f[0]), int(f[1])), int(f[2])))
+            if sorted(got) != exp:
+                return 'FAIL: %d rows written, %d interactions x instants (first difference near row %d)' % (
+                    len(got), len(exp), next((i for i, (a, b) in enumerate(zip(sorted(got), exp)) if a != b), min(len(got), len(exp))))
+        else:
+            exp = ['%s %s %s %s' % e for e in G.stream_interactions()]
+            if lines != exp:
+                return 'FAIL: %d rows written, the stream has %d events' % (len(lines), len(exp))
+        kw = dict(nodetype=int, timestamptype=int, directed=directed)
+        if keys:
+            kw['keys'] = True
+        H = reader(io.BytesIO(data), **kw) if path is None else reader(path, **kw)
+        stamps = sorted({t for ln in lines for t in ([int(ln.split(' ')[-1])] if kind != 'snap' else [int(ln.split(' ')[2])])})
+        rank = {t: (i if keys else t) for i, t in enumerate(stamps)}
+        if kind == 'snap':
+            want = sorted((u, v, tuple((rank[a], rank[b]) for a, b in runs)) for u, v, runs in tl(G))
+            have = tl(H)
+            if not directed:
+                want = sorted((min(u, v), max(u, v), r) for u, v, r in want)
+                have = sorted((min(u, v), max(u, v), r) for u, v, r in have)
+            if have != want:
+                return 'FAIL: timelines read back %r, written %r' % (have[:3], want[:3])
+        else:
+            ev = lambda K: [(norm(u, v), op, t) for u, v, op, t in K.stream_interactions()]
+            want = [(p, op, rank[t]) for p, op, t in ev(G)]
+            have = ev(H)
+            if have != want:
+                return 'FAIL: %d events read back, %d written (first difference at %d)' % (
+                    len(have), len(want), next((i for i, (a, b) in enumerate(zip(have, want)) if a != b), min(len(have), len(want))))
+            if H.number_of_nodes() != G.number_of_nodes():
+                return 'FAIL: %d nodes read back, %d written' % (H.number_of_nodes(), G.number_of_nodes())
+        return 'OK'
+    except Exception as x:
+        return 'FAIL: ' + _exc_name(x) + ': ' + str(x)[:80]
+    finally:
+        if path is not None and os.path.exists(path):
+            os.remove(path)
 
 
 def _unstr(I, s):
